@@ -147,4 +147,128 @@ VerdictC09(L, toks, occ0, occT, thr) ==
   ELSE IF \E k \in 1..Len(occT) : \A j \in 1..Len(occ0) : ~SameOcc(occ0[j], occT[k]) THEN "recognition-depends-on-threshold"
   ELSE IF Len(occT) > Len(ex) THEN "rewrites-a-small-isolated-number"
   ELSE "hides-a-number-that-is-not-small-and-isolated"
+
+\* model-vs-implementation comparison of occurrences (drift): the model keeps exact digits, the code a float
+ValueAgrees(implv, modelv) == IF StartsWith(modelv, "1/") THEN RecipMatches(implv, SubSeq(modelv, 3, Len(modelv)))
+                              ELSE ValueMatches(implv, modelv)
+ModelOccAgrees(impl, model) == impl.s = model.s /\ impl.e = model.e /\ impl.t = model.t /\ impl.o = model.o /\ ValueAgrees(impl.v, model.v)
+ModelOccsAgree(impl, model) == Len(impl) = Len(model) /\ \A k \in 1..Len(impl) : ModelOccAgrees(impl[k], model[k])
+
+(* ---- C15: lazy = batch, bounded look-ahead, token hints ------------------ *)
+\* q.toks: the stream with its hint flags (sep, nan); r: observations of the scan harness
+SameOccs(a, b) == Len(a) = Len(b) /\ \A k \in 1..Len(a) : SameOcc(a[k], b[k])
+RECURSIVE PrevSigIdx(_, _)
+PrevSigIdx(toks, i) == IF i <= 1 THEN 0 ELSE IF ~IsGlue(toks[i - 1].t) THEN i - 1 ELSE PrevSigIdx(toks, i - 1)
+\* position (0-based) in the comma-inserted twin of original token i (0-based)
+TwinPos(toks, i) == i + Cardinality({j \in 1..(i + 1) : toks[j].sep})
+VerdictC15(q, r) ==
+  IF r.batch.st # "ok" \/ r.batch0.st # "ok" \/ r.iter.st # "ok" \/ r.batch2.st # "ok" THEN "panic"
+  ELSE LET toks == q.toks  occs == r.batch.v  o0 == r.batch0.v  it == r.iter.v  n == Len(toks) IN
+    IF it.before # 0 THEN "input-read-before-first-request"
+    ELSE IF ~SameOccs([k \in 1..Len(it.items) |-> it.items[k]], occs) THEN "iterator-differs-from-batch"
+    ELSE IF ~it.none_again THEN "iterator-restarts-after-end"
+    ELSE IF \E k \in 1..Len(it.items) :
+              LET J == {j \in 1..Len(o0) : o0[j].s = it.items[k].s} IN
+              J = {} \/ LET j == CHOOSE x \in J : TRUE
+                            bound == IF j + 2 <= Len(o0) THEN o0[j + 2].s + 1 ELSE n
+                        IN it.items[k].pulled > bound
+         THEN "look-ahead-beyond-second-next-number"
+    ELSE IF \E k \in 1..Len(occs) : \E i \in (occs[k].s + 1)..occs[k].e : toks[i].nan THEN "nan-token-inside-occurrence"
+    ELSE IF \E k \in 1..Len(occs) : \E i \in (occs[k].s + 1)..occs[k].e :
+              toks[i].sep /\ PrevSigIdx(toks, i) # 0 /\ PrevSigIdx(toks, i) >= occs[k].s + 1
+         THEN "separated-token-in-same-occurrence-as-predecessor"
+    ELSE IF ~SameOccs([k \in 1..Len(occs) |-> [occs[k] EXCEPT !.s = TwinPos(toks, occs[k].s), !.e = TwinPos(toks, occs[k].e - 1) + 1]], r.batch2.v)
+         THEN "separation-hint-differs-from-a-spoken-comma"
+    ELSE IF \E c \in 1..Len(r.sep_calls) : r.sep_calls[c][2] + 1 # PrevSigIdx(toks, r.sep_calls[c][1] + 1)
+         THEN "hint-asked-about-a-token-that-is-not-the-predecessor"
+    ELSE ""
+
+(* ---- C02, token-wise clause: replace_numbers_in_stream ------------------- *)
+\* out: the returned tokens [id, t, from]; kept tokens have id >= 0, replacements id = -1 and from = ids handed over
+RECURSIVE FlattenIds(_)
+FlattenIds(out) == IF out = <<>> THEN <<>>
+                   ELSE (IF Head(out).from = <<>> THEN <<Head(out).id>> ELSE Head(out).from) \o FlattenIds(Tail(out))
+VerdictC02s(q, r) ==
+  IF r.stream.st # "ok" \/ r.batch.st # "ok" THEN "panic"
+  ELSE LET out == r.stream.v.out  calls == r.stream.v.calls  occs == r.batch.v  n == Len(q.toks)
+           repl == SelectSeq(out, LAMBDA t : t.from # <<>>) IN
+    IF FlattenIds(out) # [i \in 1..n |-> i - 1] THEN "tokens-lost-duplicated-or-reordered"
+    ELSE IF \E k \in 1..Len(out) : out[k].from = <<>> /\ out[k].t # q.toks[out[k].id + 1].t THEN "kept-token-altered"
+    ELSE IF Len(repl) # Len(occs) THEN "replacements-differ-from-occurrences"
+    ELSE IF \E k \in 1..Len(repl) : repl[k].t # occs[k].t
+                 \/ repl[k].from # [j \in 1..(occs[k].e - occs[k].s) |-> occs[k].s + j - 1] THEN "replacement-does-not-cover-its-occurrence"
+    ELSE IF Len(calls) # Len(occs) THEN "constructor-not-called-once-per-occurrence"
+    ELSE ""
+
+(* ---- two-run properties: C11 (case), C17 (whitespace), C18 (English o), C10 (context) ---- *)
+\* texts: the base text followed by its variants; ms[v][k]: observation of variant v at threshold k
+\* (the harness returns them variant-major: index (v-1)*nthr + k)
+At2(multi, nthr, v, k) == multi[(v - 1) * nthr + k]
+TextsValues(occs) == [k \in 1..Len(occs) |-> <<occs[k].t, occs[k].v, occs[k].o>>]
+VerdictC11(q, multi) ==
+  LET nthr == Len(q.thrs) nv == Len(q.texts) IN
+  First([x \in 1..(nv * nthr) |->
+     LET v == ((x - 1) \div nthr) + 1  k == ((x - 1) % nthr) + 1  m == multi[x]  b == At2(multi, nthr, 1, k) IN
+     IF m.tk # "ok" \/ b.tk # "ok" \/ m.rew.st # "ok" \/ m.t2d.st = "panic" THEN "panic"
+     ELSE IF ~SameOccs(m.occs, b.occs) THEN "occurrences-depend-on-letter-case"
+     ELSE IF m.t2d # b.t2d THEN "validation-depends-on-letter-case"
+     ELSE IF VerdictC02(q.texts[v], m) # "" THEN "case-of-untouched-text-not-kept"
+     ELSE ""])
+VerdictC17(q, multi) ==
+  LET nthr == Len(q.thrs) nv == Len(q.texts) IN
+  First([x \in 1..(nv * nthr) |->
+     LET v == ((x - 1) \div nthr) + 1  k == ((x - 1) % nthr) + 1  m == multi[x]  b == At2(multi, nthr, 1, k) IN
+     IF m.tk # "ok" \/ b.tk # "ok" \/ m.rew.st # "ok" \/ m.t2d.st = "panic" THEN "panic"
+     ELSE IF TextsValues(m.occs) # TextsValues(b.occs) THEN "occurrences-depend-on-whitespace"
+     ELSE IF m.t2d # b.t2d THEN "validation-depends-on-whitespace"
+     ELSE IF VerdictC02(q.texts[v], m) # "" THEN "whitespace-outside-spans-not-kept"
+     ELSE ""])
+\* C18: texts = <<s, twin>>; the twin has zero / xq in place of each o
+RECURSIVE ReplaceAll(_, _, _)
+ReplaceAll(s, from, to) == IF s = "" THEN ""
+   ELSE IF StartsWith(s, from) THEN to \o ReplaceAll(SubSeq(s, Len(from) + 1, Len(s)), from, to)
+   ELSE Ch(s, 1) \o ReplaceAll(SubSeq(s, 2, Len(s)), from, to)
+VerdictC18(q, multi) ==
+  LET nthr == Len(q.thrs) IN
+  First([k \in 1..nthr |->
+     LET m == At2(multi, nthr, 1, k)  t == At2(multi, nthr, 2, k) IN
+     IF m.tk # "ok" \/ t.tk # "ok" \/ m.rew.st # "ok" \/ t.rew.st # "ok" THEN "panic"
+     ELSE IF ~SameOccs(m.occs, t.occs) THEN "o-not-read-like-its-twin"
+     ELSE IF m.rew.v # ReplaceAll(ReplaceAll(t.rew.v, "zero", "o"), "xq", "o") THEN "rewriting-of-o-differs-from-its-twin"
+     ELSE ""])
+\* C10: texts = <<A S B, A, B>>, q.extra = S
+VerdictC10(q, multi) ==
+  LET nthr == Len(q.thrs) IN
+  First([k \in 1..nthr |->
+     LET ab == At2(multi, nthr, 1, k)  a == At2(multi, nthr, 2, k)  b == At2(multi, nthr, 3, k) IN
+     IF ab.rew.st # "ok" \/ a.rew.st # "ok" \/ b.rew.st # "ok" THEN "panic"
+     ELSE IF ab.rew.v # a.rew.v \o q.extra \o b.rew.v THEN "earlier-context-changes-a-later-conversion"
+     ELSE ""])
+
+(* ---- C03: totality ------------------------------------------------------- *)
+VerdictC03(q, m) ==
+  IF "lookup" \in DOMAIN m /\ m.lookup # "some" THEN "built-in-language-not-resolvable"
+  ELSE IF m.t2d.st = "panic" THEN "validation-panics"
+  ELSE IF m.rew.st = "panic" THEN "rewrite-panics"
+  ELSE IF m.tk # "ok" THEN "search-panics"
+  ELSE IF q.pure /\ m.t2d.st # "err" THEN "non-number-validated"
+  ELSE ""
+
+(* ---- C13: facade = concrete; ISO codes ----------------------------------- *)
+StripLookup(r) == [k \in (DOMAIN r) \ {"lookup"} |-> r[k]]
+VerdictC13(q, r) ==
+  IF q.kind = "noncode" THEN (IF r.lookup = "none" THEN "" ELSE "non-code-resolved-to-a-language")
+  ELSE LET c == r.byvia[1]  f == r.byvia[2]  lk == r.byvia[3] IN
+    IF f # c THEN "facade-differs-from-concrete-interpreter"
+    ELSE IF "lookup" \notin DOMAIN lk \/ lk.lookup # "some" THEN "iso-code-not-resolved"
+    ELSE IF StripLookup(lk) # c THEN "iso-code-resolves-to-a-different-behaviour"
+    ELSE ""
+
+(* ---- C14: Memo -- an interpreter is a function of its arguments ------------ *)
+\* records [k (call id), who (fresh | seq | t<n>), seq, res]; ref[k] = result on a fresh interpreter
+VerdictC14(rec, ref) ==
+  IF rec.who = "streams" THEN (IF rec.res = "0" THEN "" ELSE "output-on-standard-streams")
+  ELSE IF rec.k \notin DOMAIN ref THEN "thread-died"
+  ELSE IF rec.res # ref[rec.k] THEN (IF rec.who = "seq" THEN "result-depends-on-earlier-calls" ELSE "result-depends-on-concurrent-calls")
+  ELSE ""
 =============================================================================
